@@ -212,6 +212,26 @@ func Drivers(nthreads int) []Driver {
 				*out = append(*out, obsMap(m2, len(val)))
 			}}
 		}},
+		{"10 present-but-empty lists next to failing fields, nested empty lists", nthreads, func() *Shared {
+			s := z.Struct(z.Schema{"name": z.String().Min(5), "tags": z.Slice(z.String().Min(2))})
+			nested := z.Slice(z.Slice(z.String().Min(3)))
+			return &Shared{Thread: func(i int, out *[]string, yield func()) {
+				var d user
+				if i%2 == 0 {
+					m := s.Parse(map[string]any{"name": "x", "tags": []any{}}, &d)
+					*out = append(*out, obsMap(m, d))
+					var dd [][]string
+					m2 := nested.Parse([]any{[]any{}, []any{"x"}}, &dd)
+					*out = append(*out, obsMap(m2, len(dd)))
+				} else {
+					m := s.Parse(map[string]any{"name": "y", "tags": []any{"ok", "z"}}, &d)
+					*out = append(*out, obsMap(m, d))
+					var s2 string
+					l := z.String().Min(5).Parse("abc", &s2)
+					*out = append(*out, obsList(l, s2))
+				}
+			}}
+		}},
 		{"8 shared Time/Bool/Float schemas with defaults and OneOf lists", nthreads, func() *Shared {
 			list := []float64{1.5, 2.5}
 			t0 := time.Date(2024, 1, 1, 0, 0, 0, 0, time.UTC)
